@@ -41,7 +41,7 @@ func init() {
 			"go map iteration order is not controlled: snapshot sessions are repeated and order dependent verdicts are labelled flaky",
 		},
 		Enumerate:     enumerate,
-		Exec:          exec,
+		Exec:          execCase,
 		Required:      required,
 		Bound:         bound,
 		Selftest:      selftest,
@@ -77,7 +77,7 @@ func bound(tier string) string {
 		n, maxMargin-minMargin+1, minMargin, maxMargin, cnt, k, len(menu))
 }
 
-func exec(spec string) (res engine.Result) {
+func execCase(spec string) (res engine.Result) {
 	switch {
 	case strings.HasPrefix(spec, "probe:"):
 		scope := slip.NewScope()
@@ -96,7 +96,7 @@ func exec(spec string) (res engine.Result) {
 		execLF(c, &res)
 	case strings.HasPrefix(spec, "snap|"):
 		execSnap(spec, &res)
-	case strings.HasPrefix(spec, "stage1|"), strings.HasPrefix(spec, "stage2|"), strings.HasPrefix(spec, "stage3|"):
+	case strings.HasPrefix(spec, "stage1|"), strings.HasPrefix(spec, "stage2|"), strings.HasPrefix(spec, "stage2f|"), strings.HasPrefix(spec, "stage3|"):
 		execStage(spec, &res)
 	default:
 		res.Fail("harness:bad-spec", spec)
